@@ -275,6 +275,9 @@ func RunBatch(sc Scenario, tier string) int {
 		K = max(b.Runs, 1)
 	}
 	deadline := time.Time{}
+	if v, err := strconv.Atoi(os.Getenv("VERIF_WALL_S")); err == nil && v > 0 {
+		b.WallCap = time.Duration(v) * time.Second // developer sweeps: shorter or longer batches than the tier's default
+	}
 	if b.WallCap > 0 {
 		deadline = start.Add(b.WallCap)
 	}
